@@ -1,8 +1,16 @@
 package eval
 
 import (
+	"math"
+
 	"grol.io/grol/object"
 )
+
+// -0.0 == 0.0 as Go map keys but the two are different arguments (1/x, printing): not usable as a cache key.
+func negativeZero(o object.Object) bool {
+	f, ok := o.(object.Float)
+	return ok && f.Value == 0 && math.Signbit(f.Value)
+}
 
 const MaxArgs = 4
 
@@ -32,7 +40,7 @@ func (c Cache) Get(fn string, args []object.Object) (object.Object, []byte, bool
 	key := CacheKey{Fn: fn}
 	for i, v := range args {
 		// Can't hash functions, arrays, maps arguments (yet).
-		if !object.Hashable(v) {
+		if !object.Hashable(v) || negativeZero(v) {
 			return nil, nil, false
 		}
 		key.Args[i] = v
@@ -54,7 +62,7 @@ func (c Cache) Set(fn string, args []object.Object, result object.Object, output
 	key := CacheKey{Fn: fn}
 	for i, v := range args {
 		// Can't hash functions arguments (yet).
-		if !object.Hashable(v) {
+		if !object.Hashable(v) || negativeZero(v) {
 			return
 		}
 		key.Args[i] = v
